@@ -2260,7 +2260,9 @@ def token_iter(ctx: "Wtp", text: str) -> Iterator[tuple[bool, str]]:
             if ctx.inside_html_tags_re.match(tp):
                 # we're inside an HTML tag
                 tp = tp.replace("'", MAGIC_SQUOTE_CHAR)
-                tp = tp.replace("\n", "")
+                # A line break is white space between the tag name and the
+                # attributes; only drop it right before the closing ">" / "/>"
+                tp = re.sub(r"\n+(?=\s*/?>)", "", tp).replace("\n", " ")
             new_parts.append(tp)
         text = "".join(new_parts)
 
